@@ -110,8 +110,7 @@ pub open spec fn reservation_req(r: packets::Reservation, cfg: Config, token: Se
 pub open spec fn release_amount(pre: usize, final_amount: u64) -> usize {
     if final_amount as int >= pre as int { 0usize } else { (pre as int - final_amount as int) as usize }
 }
-pub open spec fn commit_req(r: packets::PartialReversal, cfg: Config, token: Seq<char>, receipt_no: usize, final_amount: u64) -> bool {
-    &&& r.receipt_no == Some(receipt_no)
+pub open spec fn commit_req(r: packets::PartialReversal, cfg: Config, token: Seq<char>, final_amount: u64) -> bool {
     &&& r.currency == Some(cfg.feig_config.currency)
     &&& r.amount == Some(release_amount(cfg.feig_config.pre_authorization_amount, final_amount))
     &&& r.payment_type == Some(0x40u8)
@@ -177,6 +176,9 @@ pub open spec fn eod_result(exs: Seq<Exch>) -> Result<()> {
     }
 }
 
+pub open spec fn begin_refused(c: &Feig, token: Seq<char>) -> bool {
+    c.transactions@.len() == c.transactions_max_num || c.transactions@.contains_key(token)
+}
 pub open spec fn same_client(a: &Feig, b: &Feig) -> bool {
     a.transactions@ == b.transactions@ && a.transactions_max_num == b.transactions_max_num && a.socket.cfg() == b.socket.cfg()
 }
@@ -224,12 +226,13 @@ impl Feig {
     //@ end
 
     //@ fn src:zvt_feig_terminal/src/feig.rs | impl Feig | cancel_pending | all-loops props=C19
-    //@ tag cancel_pending C19 C07
         ensures
+    //@ tag cancel_pending.state C07 ~C19
             final(self).transactions@ == Map::<Seq<char>, usize>::empty(),
             final(self).transactions_max_num == old(self).transactions_max_num,
             final(self).socket.cfg() == old(self).socket.cfg(),
             extends(final(self).socket.log(), old(self).socket.log()),
+    //@ tag cancel_pending.shape C19
             cp_shape(final(self).socket.log().skip(old(self).socket.log().len() as int), old(self).socket.cfg()),
             r == cp_result(final(self).socket.log().skip(old(self).socket.log().len() as int)),
     //@ loop 0
@@ -246,14 +249,16 @@ impl Feig {
                 iter.index@ == 1 ==> (self.socket.log().last().items matches AnyItems::PreAuthReversal(its_b) && cancel_fold(its_b) == Result::<()>::Ok(())),
     //@ end
 
-    //@ fn src:zvt_feig_terminal/src/feig.rs | impl Feig | end_of_day | all-loops props=C19,C20
-    //@ tag end_of_day C19 C20 C07
+    //@ fn src:zvt_feig_terminal/src/feig.rs | impl Feig | end_of_day | all-loops props=C19,~C20,~C07
         ensures
+    //@ tag end_of_day.state C07 ~C19
             final(self).transactions@ == Map::<Seq<char>, usize>::empty(),
             final(self).transactions_max_num == old(self).transactions_max_num,
             final(self).socket.cfg() == old(self).socket.cfg(),
             extends(final(self).socket.log(), old(self).socket.log()),
+    //@ tag end_of_day.shape C19
             eod_shape(final(self).socket.log().skip(old(self).socket.log().len() as int), old(self).socket.cfg()),
+    //@ tag end_of_day.result C19 C20
             r == eod_result(final(self).socket.log().skip(old(self).socket.log().len() as int)),
     //@ loop 0
             invariant
@@ -266,49 +271,61 @@ impl Feig {
                 cp_result(self.socket.log().skip(old(self).socket.log().len() as int).drop_last()) == Result::<()>::Ok(()),
                 cp_len(self.socket.log().skip(old(self).socket.log().len() as int)) == self.socket.log().len() - old(self).socket.log().len() - 1,
                 self.socket.log().last().req matches Req::EndOfDay(q) && eod_req(q, old(self).socket.cfg()),
+    //@ tag end_of_day.inv.fold C19 C20
                 self.socket.log().last().items matches AnyItems::EndOfDay(its_c) && eod_fold(stream.rest()) == eod_fold(its_c),
             ensures stream.rest().len() == 0,
     //@ attr
     #[verifier::exec_allows_no_decreases_clause]
     //@ end
 
-    //@ fn src:zvt_feig_terminal/src/feig.rs | impl Feig | begin_transaction | all-loops props=C07,C08,C20
+    //@ fn src:zvt_feig_terminal/src/feig.rs | impl Feig | begin_transaction | all-loops props=C07
         ensures
+    //@ tag begin.frame C07
             final(self).transactions_max_num == old(self).transactions_max_num,
             final(self).socket.cfg() == old(self).socket.cfg(),
     //@ tag begin.refused_without_traffic C07
             // begin is refused for an open token and when the maximum is reached: documented error, no traffic, nothing recorded
-            (old(self).transactions@.len() == old(self).transactions_max_num || old(self).transactions@.contains_key(token@)) ==> (
+            begin_refused(old(self), token@) ==> (
                 r matches Err(VErr::Feig(Error::ActiveTransaction(_)))
                 && final(self).socket.log() == old(self).socket.log()
                 && final(self).transactions@ == old(self).transactions@),
+    //@ tag begin.sends_one C07
+            !begin_refused(old(self), token@) ==> one_more(final(self).socket.log(), old(self).socket.log()),
     //@ tag begin.request C08
-            // otherwise exactly one reservation for the configured amount and currency, tagged with the token
-            !(old(self).transactions@.len() == old(self).transactions_max_num || old(self).transactions@.contains_key(token@)) ==> (
-                one_more(final(self).socket.log(), old(self).socket.log())
-                && (final(self).socket.log().last().req matches Req::Reservation(q) && reservation_req(q, old(self).socket.cfg(), token@))),
-    //@ tag begin.outcome C07 C20
+            // exactly one reservation for the configured amount and currency, tagged with the token
+            one_more(final(self).socket.log(), old(self).socket.log()) ==> (final(self).socket.log().last().req matches Req::Reservation(q) && reservation_req(q, old(self).socket.cfg(), token@)),
+    //@ tag begin.map C07
             // the token is recorded with the receipt number the terminal issued iff the reservation went through
-            !(old(self).transactions@.len() == old(self).transactions_max_num || old(self).transactions@.contains_key(token@)) ==> (
+            !begin_refused(old(self), token@) ==> (
                 final(self).socket.log().last().items matches AnyItems::Reservation(its) && (match begin_fold(its, None) {
-                    Err(e) => r == Result::<()>::Err(e) && final(self).transactions@ == old(self).transactions@,
-                    Ok(None) => r == Result::<()>::Err(incomplete()) && final(self).transactions@ == old(self).transactions@,
-                    Ok(Some(rn)) => r is Ok && final(self).transactions@ == old(self).transactions@.insert(token@, rn),
+                    Ok(Some(rn)) => final(self).transactions@ == old(self).transactions@.insert(token@, rn),
+                    _ => final(self).transactions@ == old(self).transactions@,
+                })),
+    //@ tag begin.result C20
+            (!begin_refused(old(self), token@) && one_more(final(self).socket.log(), old(self).socket.log())) ==> (
+                final(self).socket.log().last().items matches AnyItems::Reservation(its) && (match begin_fold(its, None) {
+                    Err(e) => r == Result::<()>::Err(e),
+                    Ok(None) => r == Result::<()>::Err(incomplete()),
+                    Ok(Some(rn)) => r is Ok,
                 })),
     //@ loop 0
             invariant
+    //@ tag begin.inv.state C07
                 same_client(self, old(self)),
                 one_more(self.socket.log(), old(self).socket.log()),
+                !begin_refused(old(self), token@),
+    //@ tag begin.inv.request C08 ~C07
                 self.socket.log().last().req matches Req::Reservation(q) && reservation_req(q, old(self).socket.cfg(), token@),
+    //@ tag begin.inv.fold C07 C20
                 self.socket.log().last().items matches AnyItems::Reservation(its) && begin_fold(stream.rest(), receipt_no) == begin_fold(its, None),
-                !(old(self).transactions@.len() == old(self).transactions_max_num || old(self).transactions@.contains_key(token@)),
             ensures stream.rest().len() == 0,
     //@ attr
     #[verifier::exec_allows_no_decreases_clause]
     //@ end
 
-    //@ fn src:zvt_feig_terminal/src/feig.rs | impl Feig | cancel_transaction | all-loops props=C07,C19
+    //@ fn src:zvt_feig_terminal/src/feig.rs | impl Feig | cancel_transaction | all-loops props=C07
         ensures
+    //@ tag cancel.frame C07
             final(self).transactions_max_num == old(self).transactions_max_num,
             final(self).socket.cfg() == old(self).socket.cfg(),
             extends(final(self).socket.log(), old(self).socket.log()),
@@ -317,34 +334,48 @@ impl Feig {
                 (r matches Err(VErr::Feig(Error::UnknownToken(s))) && s@ == token@)
                 && final(self).socket.log() == old(self).socket.log()
                 && final(self).transactions@ == old(self).transactions@),
-    //@ tag cancel.acts_on_own_receipt C07 C08
+    //@ tag cancel.acts_on_own_receipt C07
             old(self).transactions@.contains_key(token@) ==> ({
                 let exs = final(self).socket.log().skip(old(self).socket.log().len() as int);
                 &&& exs.len() >= 1
                 &&& exs[0].req matches Req::PreAuthReversal(q) && reversal_req(q, old(self).socket.cfg(), old(self).transactions@[token@])
                 &&& exs[0].items is PreAuthReversal
             }),
-    //@ tag cancel.idle_cleanup C19 C07
+    //@ tag cancel.closes_token C07
+            old(self).transactions@.contains_key(token@) ==> ({
+                let exs = final(self).socket.log().skip(old(self).socket.log().len() as int);
+                let m1 = old(self).transactions@.remove(token@);
+                exs[0].items matches AnyItems::PreAuthReversal(its) && (
+                    if cancel_fold(its) is Ok && m1 =~= Map::<Seq<char>, usize>::empty() { final(self).transactions@ == Map::<Seq<char>, usize>::empty() }
+                    else { final(self).transactions@ == m1 })
+            }),
+    //@ tag cancel.idle_cleanup C19
             old(self).transactions@.contains_key(token@) ==> ({
                 let exs = final(self).socket.log().skip(old(self).socket.log().len() as int);
                 let m1 = old(self).transactions@.remove(token@);
                 exs[0].items matches AnyItems::PreAuthReversal(its) && (match cancel_fold(its) {
-                    Err(e) => r == Result::<()>::Err(e) && exs.len() == 1 && final(self).transactions@ == m1,
-                    Ok(_) => if m1 =~= Map::<Seq<char>, usize>::empty() {
-                        // nothing open any more: clean up and request end-of-day at once
-                        &&& eod_shape(exs.skip(1), old(self).socket.cfg())
-                        &&& r == eod_result(exs.skip(1))
-                        &&& final(self).transactions@ == Map::<Seq<char>, usize>::empty()
-                    } else {
-                        // other transactions still open: no end-of-day, no pending query
-                        exs.len() == 1 && r == Result::<()>::Ok(()) && final(self).transactions@ == m1
-                    },
+                    Err(e) => exs.len() == 1,
+                    // nothing open any more: clean up and request end-of-day at once; otherwise: no end-of-day, no pending query
+                    Ok(_) => if m1 =~= Map::<Seq<char>, usize>::empty() { eod_shape(exs.skip(1), old(self).socket.cfg()) } else { exs.len() == 1 },
                 })
+            }),
+    //@ tag cancel.abort_surfaces C20
+            old(self).transactions@.contains_key(token@) ==> ({
+                let exs = final(self).socket.log().skip(old(self).socket.log().len() as int);
+                exs[0].items matches AnyItems::PreAuthReversal(its) && (cancel_fold(its) matches Err(e) ==> r == Result::<()>::Err(e))
+            }),
+    //@ tag cancel.result C19
+            old(self).transactions@.contains_key(token@) ==> ({
+                let exs = final(self).socket.log().skip(old(self).socket.log().len() as int);
+                let m1 = old(self).transactions@.remove(token@);
+                exs[0].items matches AnyItems::PreAuthReversal(its) && (cancel_fold(its) is Ok ==> (
+                    if m1 =~= Map::<Seq<char>, usize>::empty() { r == eod_result(exs.skip(1)) } else { r == Result::<()>::Ok(()) }))
             }),
     //@ end
 
-    //@ fn src:zvt_feig_terminal/src/feig.rs | impl Feig | commit_transaction | all-loops optmap props=C07,C08,C19,C20
+    //@ fn src:zvt_feig_terminal/src/feig.rs | impl Feig | commit_transaction | all-loops optmap props=C07
         ensures
+    //@ tag commit.frame C07
             final(self).transactions_max_num == old(self).transactions_max_num,
             final(self).socket.cfg() == old(self).socket.cfg(),
             extends(final(self).socket.log(), old(self).socket.log()),
@@ -353,47 +384,300 @@ impl Feig {
                 (r matches Err(VErr::Feig(Error::UnknownToken(s))) && s@ == token@)
                 && final(self).socket.log() == old(self).socket.log()
                 && final(self).transactions@ == old(self).transactions@),
-    //@ tag commit.request C08 C07
-            // releases exactly pre-authorised minus final amount (0 when the final amount is larger), configured currency,
-            // against the receipt number and reference token of that reservation
+    //@ tag commit.acts_on_own_receipt C07
             old(self).transactions@.contains_key(token@) ==> ({
                 let exs = final(self).socket.log().skip(old(self).socket.log().len() as int);
                 &&& exs.len() >= 1
-                &&& exs[0].req matches Req::PartialReversal(q) && commit_req(q, old(self).socket.cfg(), token@, old(self).transactions@[token@], amount)
+                &&& exs[0].req matches Req::PartialReversal(q) && q.receipt_no == Some(old(self).transactions@[token@])
                 &&& exs[0].items is PartialReversal
             }),
-    //@ tag commit.outcome C19 C07 C20 C08
+    //@ tag commit.request C08
+            // releases exactly pre-authorised minus final amount (0 when the final amount is larger), configured currency,
+            // payment type 40, reference token of that reservation
+            old(self).transactions@.contains_key(token@) ==> ({
+                let exs = final(self).socket.log().skip(old(self).socket.log().len() as int);
+                exs[0].req matches Req::PartialReversal(q) && commit_req(q, old(self).socket.cfg(), token@, amount)
+            }),
+    //@ tag commit.closes_token C07
+            old(self).transactions@.contains_key(token@) ==> ({
+                let exs = final(self).socket.log().skip(old(self).socket.log().len() as int);
+                let m1 = old(self).transactions@.remove(token@);
+                exs[0].items matches AnyItems::PartialReversal(its) && (
+                    if commit_fold(its, None) is Ok && m1 =~= Map::<Seq<char>, usize>::empty() { final(self).transactions@ == Map::<Seq<char>, usize>::empty() }
+                    else { final(self).transactions@ == m1 })
+            }),
+    //@ tag commit.idle_cleanup C19
             old(self).transactions@.contains_key(token@) ==> ({
                 let exs = final(self).socket.log().skip(old(self).socket.log().len() as int);
                 let m1 = old(self).transactions@.remove(token@);
                 exs[0].items matches AnyItems::PartialReversal(its) && (match commit_fold(its, None) {
-                    Err(e) => r matches Err(e2) && e2 == e && exs.len() == 1 && final(self).transactions@ == m1,
-                    Ok(osi) => if m1 =~= Map::<Seq<char>, usize>::empty() {
-                        &&& eod_shape(exs.skip(1), old(self).socket.cfg())
-                        &&& final(self).transactions@ == Map::<Seq<char>, usize>::empty()
-                        &&& (match eod_result(exs.skip(1)) {
-                                Err(e) => r matches Err(e2) && e2 == e,
-                                Ok(_) => summary_result(osi, r),
-                            })
-                    } else {
-                        exs.len() == 1 && final(self).transactions@ == m1 && summary_result(osi, r)
-                    },
+                    Err(e) => exs.len() == 1,
+                    Ok(_) => if m1 =~= Map::<Seq<char>, usize>::empty() { eod_shape(exs.skip(1), old(self).socket.cfg()) } else { exs.len() == 1 },
+                })
+            }),
+    //@ tag commit.abort_surfaces C20
+            old(self).transactions@.contains_key(token@) ==> ({
+                let exs = final(self).socket.log().skip(old(self).socket.log().len() as int);
+                exs[0].items matches AnyItems::PartialReversal(its) && (commit_fold(its, None) matches Err(e) ==> (r matches Err(e2) && e2 == e))
+            }),
+    //@ tag commit.result C19
+            old(self).transactions@.contains_key(token@) ==> ({
+                let exs = final(self).socket.log().skip(old(self).socket.log().len() as int);
+                let m1 = old(self).transactions@.remove(token@);
+                exs[0].items matches AnyItems::PartialReversal(its) && (
+                    (commit_fold(its, None) is Ok && m1 =~= Map::<Seq<char>, usize>::empty() && eod_result(exs.skip(1)) is Err)
+                        ==> (r matches Err(e2) && Result::<()>::Err(e2) == eod_result(exs.skip(1))))
+            }),
+    //@ tag commit.summary C08
+            old(self).transactions@.contains_key(token@) ==> ({
+                let exs = final(self).socket.log().skip(old(self).socket.log().len() as int);
+                let m1 = old(self).transactions@.remove(token@);
+                exs[0].items matches AnyItems::PartialReversal(its) && (match commit_fold(its, None) {
+                    Err(e) => true,
+                    Ok(osi) => (!(m1 =~= Map::<Seq<char>, usize>::empty()) || eod_result(exs.skip(1)) is Ok) ==> summary_result(osi, r),
                 })
             }),
     //@ loop 0
             invariant
+    //@ tag commit.inv.state C07
                 old(self).transactions@.contains_key(token@),
                 removed == Some(old(self).transactions@[token@]),
                 self.transactions@ == old(self).transactions@.remove(token@),
                 self.transactions_max_num == old(self).transactions_max_num,
                 self.socket.cfg() == old(self).socket.cfg(),
                 one_more(self.socket.log(), old(self).socket.log()),
-                self.socket.log().last().req matches Req::PartialReversal(q) && commit_req(q, old(self).socket.cfg(), token@, old(self).transactions@[token@], amount),
+                self.socket.log().last().req matches Req::PartialReversal(q) && q.receipt_no == Some(old(self).transactions@[token@]),
+    //@ tag commit.inv.request C08 ~C07
+                self.socket.log().last().req matches Req::PartialReversal(q) && commit_req(q, old(self).socket.cfg(), token@, amount),
+    //@ tag commit.inv.fold C20 C08 ~C07 ~C19
                 self.socket.log().last().items matches AnyItems::PartialReversal(its) && commit_fold(stream.rest(), status_information) == commit_fold(its, None),
             ensures stream.rest().len() == 0,
     //@ attr
     #[verifier::exec_allows_no_decreases_clause]
     //@ end
+
+    //@ fn src:zvt_feig_terminal/src/feig.rs | impl Feig | read_card | all-loops props=C10,~C18,~C20
+        ensures
+            same_client(final(self), old(self)),
+            one_more(final(self).socket.log(), old(self).socket.log()),
+    //@ tag read_card.request C10 C18
+            // the per-packet timeout is the configured card timeout plus two seconds (never zero, never wrapped),
+            // the retry budget is 20 attempts two seconds apart
+            final(self).socket.log().last().req matches Req::ReadCard(q, retry, timeout) && ({
+                &&& q.timeout_sec == old(self).socket.cfg().feig_config.read_card_timeout
+                &&& q.card_type == Some(0x10u8) && q.dialog_control == Some(0x02u8)
+                &&& (q.tlv matches Some(t) && t.card_reading_control == Some(0xd0u8) && t.card_type == Some(0x07u8))
+                &&& timeout.secs == old(self).socket.cfg().feig_config.read_card_timeout as u64 + 2 && timeout.secs >= 2
+                &&& retry.attempts == 20 && retry.throttle_secs == 2
+            }),
+    //@ tag read_card.abort_surfaces C20
+            // an abort before any status information: 6C (time-out) => no card presented, unknown code => error naming it,
+            // any other code => error with that code's message; never success
+            final(self).socket.log().last().items matches AnyItems::ReadCard(its) && (abort_first(its) matches Some(c) ==> (r matches Err(e) && e == read_abort_err(c))),
+    //@ tag read_card.outcome C18
+            final(self).socket.log().last().items matches AnyItems::ReadCard(its) && (match read_fold(its, None) {
+                Err(e) => r matches Err(e2) && e2 == e,
+                Ok(None) => r matches Err(e2) && e2 == incomplete(),
+                Ok(Some(CardSpec::Bank)) => r matches Ok(CardInfo::Bank),
+                Ok(Some(CardSpec::Member(id))) => r matches Ok(CardInfo::MembershipCard(t)) && t@ == id,
+            }),
+    //@ loop 0
+            invariant
+    //@ tag read_card.inv.state ~C18 ~C20 ~C10
+                same_client(self, old(self)),
+                one_more(self.socket.log(), old(self).socket.log()),
+    //@ tag read_card.inv.request C10 ~C18
+                self.socket.log().last().req matches Req::ReadCard(q, retry, timeout) && ({
+                    &&& q.timeout_sec == old(self).socket.cfg().feig_config.read_card_timeout
+                    &&& q.card_type == Some(0x10u8) && q.dialog_control == Some(0x02u8)
+                    &&& (q.tlv matches Some(t) && t.card_reading_control == Some(0xd0u8) && t.card_type == Some(0x07u8))
+                    &&& timeout.secs == old(self).socket.cfg().feig_config.read_card_timeout as u64 + 2 && timeout.secs >= 2
+                    &&& retry.attempts == 20 && retry.throttle_secs == 2
+                }),
+    //@ tag read_card.inv.fold C18
+                self.socket.log().last().items matches AnyItems::ReadCard(its) && read_fold(stream.rest(), card_spec(card_info)) == read_fold(its, None),
+    //@ tag read_card.inv.abort C20
+                self.socket.log().last().items matches AnyItems::ReadCard(its) && (card_info is None ==> abort_first(stream.rest()) == abort_first(its)) && (card_info is Some ==> abort_first(its) is None),
+            ensures stream.rest().len() == 0,
+    //@ attr
+    #[verifier::exec_allows_no_decreases_clause]
+    //@ end
+
+    //@ fn src:zvt_feig_terminal/src/feig.rs | impl Feig | get_system_info | all-loops props=C20
+        ensures
+            same_client(final(self), old(self)),
+            one_more(final(self).socket.log(), old(self).socket.log()),
+            final(self).socket.log().last().req matches Req::GetSystemInfo(q) && q.password is None && q.instr == 1,
+    //@ tag get_system_info.outcome C20
+            final(self).socket.log().last().items matches AnyItems::GetSystemInfo(its) && (match sysinfo_fold(its) {
+                Err(e) => r matches Err(e2) && e2 == e,
+                Ok(p) => r matches Ok(p2) && p2 == p,
+            }),
+    //@ loop 0
+            invariant
+                same_client(self, old(self)),
+                one_more(self.socket.log(), old(self).socket.log()),
+                self.socket.log().last().req matches Req::GetSystemInfo(q) && q.password is None && q.instr == 1,
+                self.socket.log().last().items matches AnyItems::GetSystemInfo(its) && sysinfo_fold(stream.rest()) == sysinfo_fold(its),
+            ensures stream.rest().len() == 0,
+    //@ attr
+    #[verifier::exec_allows_no_decreases_clause]
+    //@ end
+
+    //@ fn src:zvt_feig_terminal/src/feig.rs | impl Feig | initialize | all-loops props=C20
+        ensures
+            same_client(final(self), old(self)),
+            one_more(final(self).socket.log(), old(self).socket.log()),
+            final(self).socket.log().last().req matches Req::Initialization(q) && q.password == old(self).socket.cfg().feig_config.password,
+    //@ tag initialize.outcome C20
+            final(self).socket.log().last().items matches AnyItems::Initialization(its) && r == init_fold(its),
+    //@ loop 0
+            invariant
+                same_client(self, old(self)),
+                one_more(self.socket.log(), old(self).socket.log()),
+                self.socket.log().last().req matches Req::Initialization(q) && q.password == old(self).socket.cfg().feig_config.password,
+                self.socket.log().last().items matches AnyItems::Initialization(its) && init_fold(stream.rest()) == init_fold(its),
+            ensures stream.rest().len() == 0,
+    //@ attr
+    #[verifier::exec_allows_no_decreases_clause]
+    //@ end
+
+    //@ fn src:zvt_feig_terminal/src/feig.rs | impl Feig | set_terminal_id | all-loops props=C20
+        ensures
+            same_client(final(self), old(self)),
+            extends(final(self).socket.log(), old(self).socket.log()),
+    //@ tag set_terminal_id.outcome C20
+            ({
+                let exs = final(self).socket.log().skip(old(self).socket.log().len() as int);
+                &&& exs.len() >= 1
+                &&& exs[0].items matches AnyItems::GetSystemInfo(its0) && (match sysinfo_fold(its0) {
+                        Err(e) => exs.len() == 1 && r == Result::<()>::Err(e),
+                        Ok(info) => if old(self).socket.cfg().terminal_id@ == info.terminal_id@ { exs.len() == 1 && r == Result::<()>::Ok(()) } else {
+                            match parse_usize_spec(old(self).socket.cfg().terminal_id@) {
+                                None => exs.len() == 1 && r is Err,
+                                Some(tid) => {
+                                    &&& exs.len() == 2
+                                    &&& exs[1].req matches Req::SetTerminalId(q) && q.terminal_id == Some(tid) && q.password == old(self).socket.cfg().feig_config.password
+                                    &&& exs[1].items matches AnyItems::SetTerminalId(its1) && r == settid_fold(its1)
+                                },
+                            }
+                        },
+                    })
+            }),
+    //@ loop 0
+            invariant
+                same_client(self, old(self)),
+                self.socket.log().len() == old(self).socket.log().len() + 2,
+                extends(self.socket.log(), old(self).socket.log()),
+                self.socket.log()[old(self).socket.log().len() as int].items matches AnyItems::GetSystemInfo(its0) && sysinfo_fold(its0) == Result::<feig::packets::CVendFunctionsEnhancedSystemInformationCompletion>::Ok(system_info),
+                old(self).socket.cfg().terminal_id@ != system_info.terminal_id@,
+                parse_usize_spec(old(self).socket.cfg().terminal_id@) == Some(terminal_id),
+                self.socket.log().last().req matches Req::SetTerminalId(q) && q.terminal_id == Some(terminal_id) && q.password == old(self).socket.cfg().feig_config.password,
+                self.socket.log().last().items matches AnyItems::SetTerminalId(its1) && settid_fold(stream.rest()) == settid_fold(its1),
+            ensures stream.rest().len() == 0,
+    //@ attr
+    #[verifier::exec_allows_no_decreases_clause]
+    //@ end
+
+    //@ fn src:zvt_feig_terminal/src/feig.rs | impl Feig | configure | all-loops props=C20
+        ensures
+            final(self).transactions_max_num == old(self).transactions_max_num,
+            final(self).socket.cfg() == old(self).socket.cfg(),
+            extends(final(self).socket.log(), old(self).socket.log()),
+    //@ end
+}
+
+/// code of an abort that arrives before any status information (read-card)
+pub open spec fn abort_first(items: Seq<Result<ReadCardResponse>>) -> Option<u8>
+    decreases items.len()
+{
+    if items.len() == 0 { None } else {
+        match items[0] {
+            Ok(ReadCardResponse::Abort(data)) => Some(data.error),
+            Ok(ReadCardResponse::StatusInformation(_)) => None,
+            _ => abort_first(items.skip(1)),
+        }
+    }
+}
+pub open spec fn read_abort_err(c: u8) -> VErr {
+    match constants::em_from_u8(c) {
+        None => VErr::Msg(ID_UNKNOWN_ERROR_CODE()),
+        Some(constants::ErrorMessages::AbortViaTimeoutOrAbortKey) => VErr::Feig(Error::NoCardPresented),
+        Some(_) => VErr::Msg(@FMTID("Unhandled error: {other}")),
+    }
+}
+/// card identity as a pure value
+pub enum CardSpec { Bank, Member(Seq<char>) }
+pub open spec fn card_spec(c: Option<CardInfo>) -> Option<CardSpec> {
+    match c { None => None, Some(CardInfo::Bank) => Some(CardSpec::Bank), Some(CardInfo::MembershipCard(s)) => Some(CardSpec::Member(s@)) }
+}
+/// canonical membership id: upper case; longer than 14 => last 14, and a leading 000000 of those dropped
+pub open spec fn canon_uid(u: Seq<char>) -> Seq<char> {
+    let up = upper_spec(u);
+    if str_byte_len(up) > 14 {
+        let last14 = str_from_spec(up, (str_byte_len(up) - 14) as nat);
+        match strip_prefix_spec(last14, "000000"@) { Some(t) => t, None => last14 }
+    } else { up }
+}
+/// read-card: classification from the status data alone (C18); abort 6C => no card, unknown code / other abort => error (C20)
+pub open spec fn read_fold(items: Seq<Result<ReadCardResponse>>, ci: Option<CardSpec>) -> Result<Option<CardSpec>>
+    decreases items.len()
+{
+    if items.len() == 0 { Ok(ci) } else {
+        match items[0] {
+            Ok(ReadCardResponse::Abort(data)) => Err(match constants::em_from_u8(data.error) {
+                None => VErr::Msg(ID_UNKNOWN_ERROR_CODE()),
+                Some(constants::ErrorMessages::AbortViaTimeoutOrAbortKey) => VErr::Feig(Error::NoCardPresented),
+                Some(_) => VErr::Msg(@FMTID("Unhandled error: {other}")),
+            }),
+            Ok(ReadCardResponse::StatusInformation(data)) => match data.tlv {
+                None => Err(incomplete()),
+                Some(tlv) => if tlv.subs@.len() > 0 {
+                    // the terminal lists a payment application: a bank card, never a membership card
+                    if tlv.subs@[0].application_id is Some { read_fold(items.skip(1), Some(CardSpec::Bank)) } else { Err(VErr::Msg(@FMTID("Unknown card type"))) }
+                } else {
+                    match tlv.uuid {
+                        Some(u) => read_fold(items.skip(1), Some(CardSpec::Member(canon_uid(u@)))),
+                        None => Err(incomplete()),
+                    }
+                },
+            },
+            _ => read_fold(items.skip(1), ci),
+        }
+    }
+}
+pub open spec fn sysinfo_fold(items: Seq<Result<feig::sequences::GetSystemInfoResponse>>) -> Result<feig::packets::CVendFunctionsEnhancedSystemInformationCompletion>
+    decreases items.len()
+{
+    if items.len() == 0 { Err(incomplete()) } else {
+        match items[0] {
+            Ok(feig::sequences::GetSystemInfoResponse::CVendFunctionsEnhancedSystemInformationCompletion(p)) => Ok(p),
+            Ok(feig::sequences::GetSystemInfoResponse::Abort(p)) => Err(aborted(p.error)),
+            Err(_) => sysinfo_fold(items.skip(1)),
+        }
+    }
+}
+pub open spec fn init_fold(items: Seq<Result<sequences::InitializationResponse>>) -> Result<()>
+    decreases items.len()
+{
+    if items.len() == 0 { Err(incomplete()) } else {
+        match items[0] {
+            Ok(sequences::InitializationResponse::CompletionData(_)) => Ok(()),
+            Ok(sequences::InitializationResponse::Abort(data)) => Err(aborted(data.error)),
+            _ => init_fold(items.skip(1)),
+        }
+    }
+}
+pub open spec fn settid_fold(items: Seq<Result<sequences::SetTerminalIdResponse>>) -> Result<()>
+    decreases items.len()
+{
+    if items.len() == 0 { Err(incomplete()) } else {
+        match items[0] {
+            Ok(sequences::SetTerminalIdResponse::CompletionData(_)) => Ok(()),
+            Ok(sequences::SetTerminalIdResponse::Abort(data)) => Err(aborted(data.error)),
+            Err(_) => settid_fold(items.skip(1)),
+        }
+    }
 }
 
 /// the summary reproduces what the terminal reported (texts via uninterpreted format functions)
